@@ -158,7 +158,7 @@ Example C16_example_rejected :
   name_op i "../victim" /\ valid_name "../victim" = false
   /\ pjoin ["/v/p"; pjoin ["../victim"; bin_name "../victim"]] = "/v/victim/victim"
   /\ model i = mk_obs EInvalid MNone [] [] [] [].
-Proof. vm_compute. repeat split; auto. Qed.
+Proof. vm_compute. repeat split; auto. Show. Qed.
 
 (* an accepted name: executes <root>/good/notation-good, removes <root>/good *)
 Example C16_example_accepted :
